@@ -6,7 +6,7 @@ use std::time::Duration;
 
 use super::super::{co_io_result, IoData};
 #[cfg(feature = "io_cancel")]
-use crate::coroutine_impl::co_cancel_data;
+use crate::coroutine_impl::co_get_handle;
 use crate::coroutine_impl::{is_coroutine, CoroutineImpl, EventSource};
 use crate::io::AsIoData;
 use crate::os::unix::net::UnixDatagram;
@@ -65,9 +65,11 @@ impl<'a> UnixRecvFrom<'a> {
 
 impl EventSource for UnixRecvFrom<'_> {
     fn subscribe(&mut self, co: CoroutineImpl) {
+        // once the coroutine is stored below another thread may resume it; it can then run to
+        // its end and drop the socket, so keep what is used after the store alive on our own
         #[cfg(feature = "io_cancel")]
-        let cancel = co_cancel_data(&co);
-        let io_data = self.io_data;
+        let handle = co_get_handle(&co);
+        let io_data = (*self.io_data).clone();
 
         #[cfg(feature = "io_timeout")]
         if let Some(dur) = self.timeout {
@@ -85,8 +87,9 @@ impl EventSource for UnixRecvFrom<'_> {
 
         #[cfg(feature = "io_cancel")]
         {
+            let cancel = handle.get_cancel();
             // register the cancel io data
-            cancel.set_io((*io_data).clone());
+            cancel.set_io(io_data);
             // re-check the cancel status
             if cancel.is_canceled() {
                 unsafe { cancel.cancel() };
